@@ -49,7 +49,9 @@ OUTSIDE = ("more than 3 effects plus a simulated effect; quantified (forall) eff
            "values outside [-4,4] (conflicts only depend on which values coincide)")
 ASSUMPTIONS = ["the candidate next insertions are a finite list (every effect template on every fluent with every value of the collection and one fresh "
                "value, every simulated effect), not all expressions",
-               "a copy of a container is obtained by replaying its whole insertion history (accepted and rejected) on a new container"]
+               "a copy of a container is obtained by replaying its whole insertion history (accepted and rejected) on a new container; "
+               "a copy on which a candidate was rejected is reused for the next candidate",
+               "when a path has both an order-dependence and an exception-safety failure the former is reported"]
 
 NUM_LO, NUM_HI = -4, 4
 FRESH = 77
@@ -107,18 +109,17 @@ def _new_container(w):
     import unified_planning as up
 
     env = w.env
-    with w.ctx.untraced():  # nothing symbolic is involved in creating an empty container
-        if w.kind == "ia":
-            return up.model.InstantaneousAction("a", _env=env)
-        if w.kind == "ev":
-            return up.model.Event("e", _env=env)
-        if w.kind == "da":
-            return up.model.DurativeAction("d", _env=env)
-        if w.kind == "pb":
-            p = up.model.Problem("p", env)
-            for f in w.fluents.values():
-                p.add_fluent(f)
-            return p
+    if w.kind == "ia":
+        return up.model.InstantaneousAction("a", _env=env)
+    if w.kind == "ev":
+        return up.model.Event("e", _env=env)
+    if w.kind == "da":
+        return up.model.DurativeAction("d", _env=env)
+    if w.kind == "pb":
+        p = up.model.Problem("p", env)
+        for f in w.fluents.values():
+            p.add_fluent(f)
+        return p
     raise ValueError(w.kind)
 
 
@@ -252,8 +253,7 @@ def _candidates(w, ops, with_sim):
         out.append(Op("I", f, w.one, label=f"cand:I:{f}"))
         out.append(Op("D", f, w.one, label=f"cand:D:{f}"))
         out.append(Op("A", f, w.fresh, cond=True, label=f"cand:cA:{f}"))
-        out.append(Op("I", f, w.one, cond=True, label=f"cand:cI:{f}"))
-    if any(op.fluent == "b" for op in ops) or any(op.kind == "S" for op in ops):
+    if any(op.fluent == "b" for op in ops):
         out.append(Op("A", "b", em.TRUE(), label="cand:B:1"))
         out.append(Op("A", "b", em.FALSE(), label="cand:B:0"))
     if any(op.fluent == "o" for op in ops):
@@ -262,6 +262,8 @@ def _candidates(w, ops, with_sim):
     if with_sim:
         for keys in (["x"], ["y"], ["x", "y"], ["b"], ["o"], ["r"]):
             if len(keys) == 1 and keys[0] in ("o", "r", "b") and not any(op.fluent == keys[0] for op in ops):
+                continue
+            if keys == ["x", "y"] and "y" not in touched:
                 continue
             out.append(Op("S", None, sim=_sim(w, keys), label=f"cand:S:{''.join(keys)}"))
     if w.other is not None:
@@ -284,13 +286,16 @@ def h_collection(ctx, container, colls, timing="start", n_sym=3, with_other=Fals
     order = ctx.perm("perm", list(range(len(ops))))
     desc = f"{container} collection {coll} order {order}"
 
+    deferred = []  # exception-safety failures are reported after the order-independence verdict (a known one must not mask it)
+
     def run(seq, checks):
         C = _new_container(w)
         history, accepted, rejected_any = [], [], False
         for i in seq:
             op = ops[i]
-            before = _snapshot(w, C)
-            n_before = len(_effects_at(w, C, w.other if op.other else w.timing))
+            if checks:
+                before = _snapshot(w, C)
+                n_before = len(_effects_at(w, C, w.other if op.other else w.timing))
             ok = _apply(w, C, op)
             history.append(op)
             if ok:
@@ -298,34 +303,46 @@ def h_collection(ctx, container, colls, timing="start", n_sym=3, with_other=Fals
                 if checks:
                     effs = _effects_at(w, C, w.other if op.other else w.timing)
                     if op.kind == "S":
-                        ctx.check(len(effs) == n_before, "accepted:effects-changed-by-simulated", f"set_simulated_effect changed the effects ({desc})")
-                    else:
-                        ctx.check(len(effs) == n_before + 1 and effs[-1].value is op.value and effs[-1].fluent is w.fl[op.fluent],
-                                  "accepted:not-appended", f"accepted insertion {op} is not the last stored effect ({desc})")
+                        if len(effs) != n_before:
+                            ctx.fail("accepted:effects-changed-by-simulated", f"set_simulated_effect changed the effects ({desc})")
+                    elif not (len(effs) == n_before + 1 and effs[-1].value is op.value and effs[-1].fluent is w.fl[op.fluent]):
+                        ctx.fail("accepted:not-appended", f"accepted insertion {op} is not the last stored effect ({desc})")
                 continue
             rejected_any = True
-            if not checks:
+            if not checks or deferred:
                 continue
-            after = _snapshot(w, C)
-            ctx.check(after == before, "rejected:effects-changed", f"rejected insertion {op} changed the stored effects ({desc})")
-            # judged as if it had never been attempted
+            if _snapshot(w, C) != before:
+                ctx.fail("rejected:effects-changed", f"rejected insertion {op} changed the stored effects ({desc})")
+            # judged as if it had never been attempted: stale = copy of this container, fresh = only the accepted insertions
+            stale_c = fresh_c = None
             for cand in _candidates(w, ops, has_sim):
-                stale = _apply(w, _rebuild(w, history), cand)
-                fresh = _apply(w, _rebuild(w, accepted), cand)
-                ctx.check(stale == fresh, f"rejected:{_short(op)}:next-{_short(cand)}-judged-differently",
-                          f"after the rejected insertion {op} (history {history}), next insertion {cand} is "
-                          f"{'accepted' if stale else 'rejected'}, but a fresh container holding only the accepted insertions {accepted} "
-                          f"{'accepts' if fresh else 'rejects'} it ({desc})")
+                if stale_c is None:
+                    stale_c = _rebuild(w, history)
+                if fresh_c is None:
+                    fresh_c = _rebuild(w, accepted)
+                stale = _apply(w, stale_c, cand)
+                fresh = _apply(w, fresh_c, cand)
+                if stale:
+                    stale_c = None  # the candidate went in: take a new copy for the next candidate
+                if fresh:
+                    fresh_c = None
+                if stale != fresh:
+                    deferred.append((f"rejected:{_short(op)}:next-{_short(cand)}-judged-differently",
+                                     f"after the rejected insertion {op} (history {history}), next insertion {cand} is "
+                                     f"{'accepted' if stale else 'rejected'}, but a fresh container holding only the accepted insertions {accepted} "
+                                     f"{'accepts' if fresh else 'rejects'} it ({desc})"))
+                    break
             ctx.witness("rejected-insertion")
         return rejected_any
 
-    got = run(order, False)
+    got = run(order, True)
     ref = run(list(range(len(ops))), False)
-    ctx.check(got == ref, "order-dependent", f"in order {order} {'some' if got else 'no'} insertion is rejected, in the listed order "
-              f"{'some' if ref else 'none'} ({desc})")
+    if got != ref:
+        ctx.fail("order-dependent", f"in order {order} {'some' if got else 'no'} insertion is rejected, in the listed order "
+                 f"{'some' if ref else 'none'} ({desc})")
     ctx.witness("conflict" if got else "conflict-free")
-    again = run(order, True)
-    ctx.check(again == got, "not-deterministic", f"the same insertion sequence on a new container gives a different verdict ({desc})")
+    if deferred:
+        ctx.fail(*deferred[0])
 
 
 def _short(op):
